@@ -296,7 +296,7 @@ type Stats struct {
 	KindsUsed                                    map[string]int
 	MultiBlockTxns, ReuseAfterDelete, YoungCols  int
 	Restores, Replicas, Keyed, Seeded, Tall      int
-	Nested                                       int
+	Nested, LateIndexes                          int
 	WritesByKind                                 map[string]int
 	FailedInserts, EmittedCommits, TriggerEvents int
 	IdViolations                                 []string
@@ -340,6 +340,7 @@ type Profile struct {
 	SeedPct     int // start from a sparse multi-block state built through Replay
 	TallPct     int
 	SchemaPct   int // chance of a schema step between transactions
+	LateIdxPct  int // chance of creating indexes right after the seeded rows
 	RestorePct  int
 	ReplicaPct  int
 	AbortPct    int
@@ -1592,6 +1593,14 @@ func newWorld(seed uint64, idx int, prof Profile, stats *Stats, withReplica bool
 	}
 	if rng.Chance(prof.SeedPct) {
 		w.seedBlocks()
+		// indexes built over rows that exist already: their bitmaps end at their last member, so
+		// the per-block windows the filters combine have different lengths
+		if !prof.NoComputed && rng.Chance(prof.LateIdxPct) {
+			for i := 1 + rng.Intn(3); i > 0; i-- {
+				w.addComp("index")
+			}
+			stats.LateIndexes++
+		}
 	}
 	return w
 }
